@@ -244,7 +244,11 @@ func c08Body(c *explore.C, tier universe.Tier, race bool) {
 	}
 	sc := c08Scenarios[c.Choose(len(c08Scenarios), explore.Data, "scenario")]
 	harness.Cur.Crumb(c.Choices())
-	c08Fresh = race && sc.freshOK
+	// every execution starts from a full reset and uses the SAME Go types: their addresses feed the
+	// library's hash structures, so fresh types per execution would make the shape of a schedule depend
+	// on the execution (met with a refactor to an address-hashed probing table); the in-place reset is
+	// cheap enough under the race detector now
+	c08Fresh = false
 	if c08Fresh {
 		hooks.ResetLight()
 	} else {
